@@ -13,10 +13,13 @@ import (
 	"context"
 	"errors"
 	"fmt"
+	"io"
 	"net"
 	"os"
+	"strings"
 	"sync"
 	"testing"
+	"time"
 
 	"github.com/ovh/kmip-go"
 	"github.com/ovh/kmip-go/kmipclient"
@@ -267,10 +270,38 @@ type clientSys struct {
 	done chan struct{}
 }
 
-func newClientSys(rec *recorder, chain []string) (system, error) {
+// builtinMiddleware: the middlewares the library ships (debug log, correlation value, timeout with and without a duration). In the
+// terms of Chain.tla each of them is a "pass" stage: it calls its continuation once and hands back what it returned.
+func builtinMiddleware(k int) kmipclient.Middleware {
+	switch k % 4 {
+	case 0:
+		return kmipclient.DebugMiddleware(io.Discard, nil)
+	case 1:
+		n := 0
+		return kmipclient.CorrelationValueMiddleware(func() string { n++; return fmt.Sprintf("corr-%d", n) })
+	case 2:
+		return kmipclient.TimeoutMiddleware(time.Hour)
+	}
+	return kmipclient.TimeoutMiddleware(0)
+}
+
+func newClientSys(rec *recorder, chain []string, builtin ...bool) (system, error) {
 	var mws []kmipclient.Middleware
 	for i, p := range chain {
 		s, prog := i+1, progs[p]
+		if len(builtin) > 0 && builtin[0] && p == "pass" {
+			// the "pass" stages of the chain are the library's own middlewares, observed from outside
+			inner := builtinMiddleware(i + len(chain))
+			mws = append(mws, func(next kmipclient.Next, ctx context.Context, msg *kmip.RequestMessage) (*kmip.ResponseMessage, error) {
+				u, m := reqTokens(msg)
+				rec.emit(u, Event{E: "enter", S: s, C: ctxToken(ctx), M: m})
+				resp, err := inner(next, ctx, msg)
+				k, f := resOfMsg(resp, err)
+				rec.emit(u, Event{E: "exit", S: s, K: k, F: f})
+				return resp, err
+			})
+			continue
+		}
 		mws = append(mws, func(next kmipclient.Next, ctx context.Context, msg *kmip.RequestMessage) (*kmip.ResponseMessage, error) {
 			return interp(rec, s, prog, ctx, msg, reqTokens, replaceReq, ownResp, resOfMsg, next)
 		})
@@ -384,6 +415,8 @@ func build(rec *recorder, kind string, chain []string) (system, error) {
 	switch kind {
 	case "client":
 		return newClientSys(rec, chain)
+	case "client-builtin":
+		return newClientSys(rec, chain, true)
 	case "srvmsg":
 		return newSrvSys(rec, chain, false), nil
 	case "srvitem":
@@ -410,7 +443,7 @@ type kindVariant struct {
 // every chain runs on the three real chains; chains that derive contexts additionally run on the two
 // server chains with derived contexts that are already cancelled
 func kindVariants(chain []string) []kindVariant {
-	kv := []kindVariant{{"client", false}, {"srvmsg", false}, {"srvitem", false}, {"srvmsg-late", false}, {"srvitem-late", false}, {"srvmsg-stop", false}}
+	kv := []kindVariant{{"client", false}, {"srvmsg", false}, {"srvitem", false}, {"srvmsg-late", false}, {"srvitem-late", false}, {"srvmsg-stop", false}, {"client-builtin", false}}
 	for _, p := range chain {
 		if p == "newctx" || p == "thrice" {
 			return append(kv, kindVariant{"srvmsg", true}, kindVariant{"srvitem", true})
@@ -425,7 +458,7 @@ func eventsEqual(kind string, got, exp []Event) bool {
 	}
 	for i := range got {
 		g, e := got[i], exp[i]
-		if kind == "client" && e.E == "core" {
+		if strings.HasPrefix(kind, "client") && e.E == "core" {
 			e.C = -1 // the context is not observable at the client's transport
 		}
 		if g != e {
